@@ -1083,7 +1083,33 @@ func (vc *VC) selectPattern(body, q string) string {
 		}
 		return ""
 	}
-	return find(body, 0)
+	pat := find(body, 0)
+	if pat != "" && vc.expandsToIte(pat, 0, map[string]bool{}) {
+		return "" // if-then-else cannot occur in a trigger
+	}
+	return pat
+}
+
+// expandsToIte: does the term, with the definitions it uses expanded, contain an if-then-else?
+func (vc *VC) expandsToIte(t string, depth int, seen map[string]bool) bool {
+	if strings.Contains(t, "(ite ") {
+		return true
+	}
+	if depth > 8 {
+		return false
+	}
+	for _, sname := range symRe.FindAllString(t, -1) {
+		if seen[sname] {
+			continue
+		}
+		seen[sname] = true
+		if d, ok := vc.defBodies[sname]; ok {
+			if vc.expandsToIte(d[1], depth+1, seen) {
+				return true
+			}
+		}
+	}
+	return false
 }
 
 // splitSexps splits a sequence of s-expressions / atoms at the top level.
